@@ -161,13 +161,13 @@ func checkC07(c *core.Ctx) {
 		}
 		return
 	}
-	n := c.N(1500, 240000)
+	n := c.N(4000, 240000)
 	for idx := 0; idx < n; idx++ {
 		if c.Mine(idx) {
 			c07Run(c, c07Scenario(c, idx))
 		}
 	}
-	nh := c.N(100, 8000)
+	nh := c.N(250, 8000)
 	for idx := 0; idx < nh; idx++ {
 		if c.Mine(idx) {
 			c07Stored(c, idx)
